@@ -53,7 +53,9 @@ pub fn op_locate_batch<K: Kern<D>, const D: usize>(tr: &mut Tracer, obj: usize, 
             break;
         }
     }
-    tr.emit("Locate", obj, json!({}), json!({"qs": items}), None, !ok);
+    // storage (iteration) order of the cells: what the scan fallback and a missing hint see
+    let order: Vec<i64> = dt.tds().cell_keys().map(|k| tr.ckey_id(dt.tds(), k)).collect();
+    tr.emit("Locate", obj, json!({"order": order}), json!({"qs": items}), None, !ok);
     ok
 }
 
@@ -80,22 +82,22 @@ fn locate_one<K: Kern<D>, const D: usize>(tr: &mut Tracer, dt: &Dt<K, D>, q: &[i
                     Ok(r) => loc_json(tr, dt, r),
                     Err(e) => (format!("Err:{}", variant(e)), 0),
                 };
-                let (kind2, cell2, steps, fell_back) = match &b {
+                let (kind2, cell2, steps, fell_back, start) = match &b {
                     Ok((r, st)) => {
                         let (k, c) = loc_json(tr, dt, r);
-                        (k, c, st.walk_steps as i64, st.fell_back_to_scan())
+                        (k, c, st.walk_steps as i64, st.fell_back_to_scan(), tr.ckey_id(dt.tds(), st.start_cell))
                     }
-                    Err(e) => (format!("Err:{}", variant(e)), 0, -1, false),
+                    Err(e) => (format!("Err:{}", variant(e)), 0, -1, false, 0),
                 };
                 let hc = match hk {
                     Some(k) if matches!(h, Hint::Cell(_)) => tr.ckey_id(dt.tds(), k),
                     _ => 0,
                 };
                 rs.push(json!({"h": hname, "hc": hc, "kind": kind, "cell": cell, "kind2": kind2, "cell2": cell2,
-                               "steps": steps, "scan": fell_back}));
+                               "steps": steps, "scan": fell_back, "start": start}));
             }
             Guarded::Panicked(msg) => {
-                rs.push(json!({"h": hname, "hc": 0, "kind": "Panic", "cell": 0, "kind2": "Panic", "cell2": 0, "steps": -1, "scan": false, "msg": msg}));
+                rs.push(json!({"h": hname, "hc": 0, "kind": "Panic", "cell": 0, "kind2": "Panic", "cell2": 0, "steps": -1, "scan": false, "start": 0, "msg": msg}));
                 panicked = true;
             }
         }
